@@ -283,6 +283,11 @@ def construct(ex, name, e):
         if md is None:
             md = SDict(vl.empty_set(), z3.K(Val, VNone), vl.empty_seq())
         return SObj('Tree', {'node': args[0], 'metadata': md})
+    if name == 'PENMANCodec':
+        args, kw = args_of(ex, e)
+        obj = ex.eng.make_param('new_codec', 'Codec', ex.assume, ex)
+        ex.call_contract('penman.codec', 'PENMANCodec.__init__', (args, kw), e, self_obj=obj)
+        return obj
     if name == 'Model':
         if e.args or e.keywords:
             raise Unsupported('Model(...) with arguments')
@@ -1244,6 +1249,8 @@ def object_method(ex, obj, name, e):
         return ex.call_contract('penman._lexer', 'TokenIterator.' + name, (args, kw), e, self_obj=obj)
     if obj.cls == 'Opaque':
         return ex.call_contract('penman.tree', 'Tree.' + name, (args, kw), e, self_obj=obj)
+    if obj.cls == 'PENMANCodec':
+        return ex.call_contract('penman.codec', 'PENMANCodec.' + name, (args, kw), e, self_obj=obj)
     raise Unsupported('method %s.%s' % (obj.cls, name))
 
 
